@@ -947,6 +947,16 @@ func TestVerifC01Scenario(t *testing.T) {
 			}
 		}
 	}
+	{
+		sc, _ := scenarioSyncAfterValidatedProposal(0, 0)
+		fins, distinct := sc.result()
+		fmt.Printf("=== sync-after-validated-proposal scenario: finalized=%v distinct=%d steps=%d\n", fins, distinct, sc.stepNo)
+		if os.Getenv("VERIF_DEBUG") != "" {
+			for _, l := range sc.log {
+				fmt.Println("  ", l)
+			}
+		}
+	}
 	for _, crash := range []bool{false, true} {
 		sc, _ := scenarioStaleHeightRecords(crash, 0, 0)
 		fins, distinct := sc.result()
@@ -1299,6 +1309,64 @@ func scenarioStaleHeightRecords(withCrash bool, crashAt, crashNode int) (*scenar
 	return sc, x
 }
 
+// ---------------------------------------------------------------- base schedule B9: block sync after a validated proposal
+//
+// n = 4, V3 Byzantine. Round 0: V1 proposes B1; V0 receives, validates and prevotes it, then is
+// cut off. V1, V2 see B1, B1, nil: no polka, nil precommits, round 1. Round 1: V2 proposes B2; V1,
+// V2, V3 prevote and precommit B2; V1 and V2 finalize B2. V0 (still in round 0, holding the
+// validated B1 in its current block parts) is handed the decided block by block sync: B2 with the
+// round-1 commit votes of V1, V2, V3. It has to finalize B2 - the block the certificate is for.
+func scenarioSyncAfterValidatedProposal(crashAt, crashNode int) (*scenario, *explorer) {
+	env := newCSEnv(4)
+	correct := []int{0, 1, 2}
+	x := newExplorer(env, correct, 3)
+	for _, p := range correct {
+		x.mt.nameBlock(x.honestBlock(p).ID(), fmt.Sprintf("B%d", p))
+		x.mt.namePS(x.honestBlock(p).partSet().ID().Hash, fmt.Sprintf("B%d", p))
+	}
+	x.byzMenu(3, 3)
+	sc := newScenario(x, 3, crashAt, crashNode)
+	pv := func(to, signer int, r int32, blk string) { sc.send(to, msgPred{"prevote", signer, r, blk}) }
+	pc := func(to, signer int, r int32, blk string) { sc.send(to, msgPred{"precommit", signer, r, blk}) }
+	// --- round 0: everybody gets V1's proposal B1 and validates it
+	sc.pump(1)
+	for _, to := range []int{0, 2} {
+		sc.send(to, msgPred{"proposal", 1, 0, "B1"})
+		sc.send(to, msgPred{"part", -2, 0, "B1"})
+	}
+	sc.send(1, msgPred{"part", -2, 0, "B1"})
+	// V0 is cut off from here on. V1 and V2 are shown B1, B1, nil (V3): no polka
+	pv(1, 2, 0, "B1")
+	pv(1, 3, 0, "nil")
+	pv(2, 1, 0, "B1")
+	pv(2, 3, 0, "nil")
+	sc.timeout(1)
+	sc.timeout(2)
+	for _, to := range []int{1, 2} {
+		for _, s := range []int{1, 2} {
+			pc(to, s, 0, "nil")
+		}
+		pc(to, 3, 0, "nil")
+	}
+	// --- round 1: V2 proposes B2; V1, V2, V3 decide it
+	sc.pump(2)
+	sc.send(1, msgPred{"proposal", 2, 1, "B2"})
+	sc.send(1, msgPred{"part", -2, 0, "B2"})
+	sc.send(2, msgPred{"part", -2, 0, "B2"})
+	pv(1, 2, 1, "B2")
+	pv(1, 3, 1, "B2")
+	pv(2, 1, 1, "B2")
+	pv(2, 3, 1, "B2")
+	pc(1, 2, 1, "B2")
+	pc(1, 3, 1, "B2")
+	pc(2, 1, 1, "B2")
+	pc(2, 3, 1, "B2")
+	// --- V0 learns the decision through block sync
+	x.mt.registerBlock("B2", x.honestBlock(2))
+	sc.blockResult(0, brDesc{block: "B2", round: 1, mask: 0b1110})
+	return sc, x
+}
+
 // runBaseWorker executes the directed base schedules on real engines: B4 (re-lock, crash,
 // amnesia) and B5 (stale polka) as designed, and each of them with one crash+restart of
 // each correct node inserted before each of its steps. It reports in the same form as a
@@ -1319,6 +1387,8 @@ func runBaseWorker(cfg c01Config) *c01Result {
 	vs = append(vs, variant{"B6-lateimport-nocrash", false, 0, 0})
 	base7, _ := scenarioHeight2Amnesia(false, 0, 0)
 	vs = append(vs, variant{"B7-h2amnesia-nocrash", false, 0, 0}, variant{"B7-h2amnesia-crashV0-after-lock", true, 0, 0})
+	base9, _ := scenarioSyncAfterValidatedProposal(0, 0)
+	vs = append(vs, variant{"B9-syncaftervalidated-nocrash", false, 0, 0})
 	base8, _ := scenarioStaleHeightRecords(false, 0, 0)
 	vs = append(vs, variant{"B8-stalerecords-nocrash", false, 0, 0}, variant{"B8-stalerecords-crashV0-after-lock", true, 0, 0})
 	for node := 0; node < 3; node++ {
@@ -1330,6 +1400,9 @@ func runBaseWorker(cfg c01Config) *c01Result {
 		}
 		for at := 1; at <= base7.stepNo; at++ {
 			vs = append(vs, variant{fmt.Sprintf("B7-h2amnesia-crashV%d-before-step%d", node, at), false, at, node})
+		}
+		for at := 1; at <= base9.stepNo; at++ {
+			vs = append(vs, variant{fmt.Sprintf("B9-syncaftervalidated-crashV%d-before-step%d", node, at), false, at, node})
 		}
 		for at := 1; at <= base8.stepNo; at++ {
 			vs = append(vs, variant{fmt.Sprintf("B8-stalerecords-crashV%d-before-step%d", node, at), false, at, node})
@@ -1351,6 +1424,8 @@ func runBaseWorker(cfg c01Config) *c01Result {
 			sc, _ = scenarioLateImport(v.crashAt, v.crashNode)
 		} else if strings.HasPrefix(v.name, "B7") {
 			sc, _ = scenarioHeight2Amnesia(v.withCrash, v.crashAt, v.crashNode)
+		} else if strings.HasPrefix(v.name, "B9") {
+			sc, _ = scenarioSyncAfterValidatedProposal(v.crashAt, v.crashNode)
 		} else if strings.HasPrefix(v.name, "B8") {
 			sc, _ = scenarioStaleHeightRecords(v.withCrash, v.crashAt, v.crashNode)
 		} else {
